@@ -307,3 +307,57 @@ def proj_c09(views):
 
 def proj_c11(views):
     return [[v["kind"], v["arg"]] for v in views if v["kind"] in ("test", "section", "ctest")]
+
+
+# ---- C08: the doccomment-stemming part of a page
+def _is_doc(name, meta):
+    m = re.match(r"^n(\d+)$", name.split("(")[0])
+    return bool(m) and int(m.group(1)) in meta and bool(meta[int(m.group(1))]["d"])
+
+
+def doc_part(views, meta, structural=False):
+    """Entries that stem from doccomment-carrying commands; inside classes only the documented members."""
+    out = []
+    for v in views:
+        if v["kind"] == "module" or not _is_doc(v["arg"], meta):
+            continue
+        if structural:
+            item = [v["kind"], v["arg"]]
+        else:
+            item = [v["kind"], v["arg"], v.get("notes"), v.get("warnings"), v.get("fields"), v.get("doc")]
+        if v["kind"] == "class":
+            mem = []
+            for sect in ("ctors", "members", "attrs"):
+                ms = [m for m in v[sect] if _is_doc(m["arg"], meta)]
+                mem.append([_mv(m) + ([] if structural else [m.get("doc")]) for m in ms])
+            mem.append([n for n in v["inner"] if _is_doc(n, meta)])
+            mem.append(v["bases"])
+            item.append(mem)
+        out.append(item)
+    return out
+
+
+KIND_FLAG = {"class": "cpp_class", "function": "function", "macro": "macro", "test": "ct_add_test",
+             "section": "ct_add_section", "ctest": "add_test", "option": "option"}
+
+
+def undocumented_shown(views, meta):
+    """(flag kind, name) of every entry on the page that stems from a command without doccomment."""
+    out = []
+
+    def src_of(name):
+        m = re.match(r"^n(\d+)$", name.split("(")[0])
+        return int(m.group(1)) if m and int(m.group(1)) in meta else None
+    for v in views:
+        if v["kind"] == "module":
+            continue
+        s = src_of(v["arg"])
+        if s is not None and not meta[s]["d"] and v["kind"] in KIND_FLAG:
+            out.append((KIND_FLAG[v["kind"]], meta[s]["k"], s))
+        if v["kind"] == "class":
+            for sect, fl in (("ctors", "cpp_constructor"), ("members", "cpp_member"), ("attrs", "cpp_attr")):
+                for m in v[sect]:
+                    s = src_of(m["arg"])
+                    if s is not None and not meta[s]["d"]:
+                        out.append((fl, meta[s]["k"], s))
+    return out
